@@ -26,7 +26,7 @@
      4. any_while_agree ... generic: a float test that decides like the exact one runs like the model
         float_due'_is_exact_due, while_agree', run_agree_src', consumed_agree'   (repaired test, grid_setting + budget)
         float_due_is_exact_due, while_agree, run_agree_src, consumed_agree       (refuted test, needs tpb mod 512 <> 0)
-     5. run'_float_exact, while'_float_exact, consumed'_float_exact, due'_index_float_exact: the statements for
+     5. run'_float_exact, run'_float_exact_tick (clock of the relative tick grid), while'_float_exact, consumed'_float_exact, due'_index_float_exact: the statements for
         [admissible'] (all tpb <= 2^20); run_float_exact_refuted_test for [admissible]
      6. satisfiability: admissible'_ticks, admissible'_512, admissible'_2560, due'_2560, admissible_480
    Print Assumptions at the end. *)
@@ -38,18 +38,7 @@ Open Scope R_scope.
 
 (** * 0. Basics *)
 
-Global Instance prec53_gt_0 : Prec_gt_0 53 := eq_refl.
-Lemma fexp64_valid : Valid_exp fexp64.
-Proof. unfold fexp64. apply FLT_exp_valid. exact prec53_gt_0. Qed.
-
-Lemma RN_le x y : x <= y -> RN x <= RN y.
-Proof. intros H. unfold RN. apply round_le; [exact fexp64_valid | apply valid_rnd_N | exact H]. Qed.
-
-Lemma RN_0 : RN 0 = 0.
-Proof. unfold RN. apply round_0. apply valid_rnd_N. Qed.
-
-Lemma RN_opp x : RN (- x) = - RN x.
-Proof. unfold RN. apply round_NE_opp. Qed.
+(* prec53_gt_0, fexp64_valid, RN_le, RN_0, RN_opp, RN_idem: Base/FloatGrid.v *)
 
 Lemma fmt_m1022 : generic_format radix2 fexp64 (bpow radix2 (-1022)).
 Proof. apply generic_format_bpow. unfold fexp64, FLT_exp. lia. Qed.
@@ -856,6 +845,20 @@ Section Track.
         apply le_IZR. change (IZR (2 ^ 40)) with 1099511627776. lra.
     Qed.
 
+    (* ... with the clock of the relative tick grid (Base/FloatGrid.v: tick_step iterated from clock0 =
+       (0.0, (0.0, None)), constant resolution; tick_run_time: n <= 2^32) *)
+    Lemma any_run_agree_tick (n : nat) : (tpb <= 2 ^ 20)%Z -> (Z.of_nat n <= 2 ^ 32)%Z -> IZR (Z.of_nat n) <= T * IZR tpb ->
+      exists pre post, Us = pre ++ post /\
+        fl_run due (fun m => fst (Nat.iter m (tick_step tpb) clock0)) n (RN (IZR s / IZR tpb), map (Dof (tau * tpb)) Us)
+          = (Xf pre, map (Dof (tau * tpb)) post) /\
+        ex_run tau n ((s * tau)%Z, Us) = (Ax pre, post).
+    Proof.
+      intros Htpb Hn32 Hn.
+      rewrite (fl_run_ext due _ (fun m => RN (IZR (Z.of_nat m) / IZR tpb))).
+      - apply any_run_agree. exact Hn.
+      - intros m Hm. destruct GS as (H1 & _). apply tick_run_time; lia.
+    Qed.
+
     Lemma any_consumed_agree (n : nat) : IZR (Z.of_nat n) <= T * IZR tpb ->
       length (snd (fl_run due (fun m => RN (IZR (Z.of_nat m) / IZR tpb)) n (RN (IZR s / IZR tpb), map (Dof (tau * tpb)) Us)))
       = length (snd (ex_run tau n ((s * tau)%Z, Us))).
@@ -896,6 +899,7 @@ Section Track.
     Definition while_agree' := any_while_agree float_due' float_due'_is_exact_due.
     Definition run_agree' := any_run_agree float_due' float_due'_is_exact_due.
     Definition run_agree_src' := any_run_agree_src float_due' float_due'_is_exact_due.
+    Definition run_agree_tick' := any_run_agree_tick float_due' float_due'_is_exact_due.
     Definition consumed_agree' := any_consumed_agree float_due' float_due'_is_exact_due.
   End Repaired.
 
@@ -938,6 +942,15 @@ Theorem run'_float_exact (tpb tau s : Z) (Us : list Z) (T : R) (n : nat) :
       = (Xf tpb tau s pre, map (Dof (tau * tpb)) post) /\
     ex_run tau n ((s * tau)%Z, Us) = (Ax tau s pre, post).
 Proof. intros [GS B]. apply run_agree_src'; assumption. Qed.
+
+(* the same with the clock of the relative tick grid (repair C01-retick-snap), constant resolution, n <= 2^32 ticks *)
+Theorem run'_float_exact_tick (tpb tau s : Z) (Us : list Z) (T : R) (n : nat) :
+  admissible' tpb tau s Us T -> (tpb <= 2 ^ 20)%Z -> (Z.of_nat n <= 2 ^ 32)%Z -> IZR (Z.of_nat n) <= T * IZR tpb ->
+  exists pre post, Us = pre ++ post /\
+    fl_run float_due' (fun m => fst (Nat.iter m (tick_step tpb) clock0)) n (RN (IZR s / IZR tpb), map (Dof (tau * tpb)) Us)
+      = (Xf tpb tau s pre, map (Dof (tau * tpb)) post) /\
+    ex_run tau n ((s * tau)%Z, Us) = (Ax tau s pre, post).
+Proof. intros [GS B]. apply run_agree_tick'; assumption. Qed.
 
 Theorem while'_float_exact (tpb tau s : Z) (Us : list Z) (T : R) (k : Z) :
   admissible' tpb tau s Us T -> (0 <= k)%Z -> IZR k <= T * IZR tpb ->
@@ -1048,10 +1061,11 @@ Print Assumptions tie_sharp_512.
 Print Assumptions due'_float_exact.
 Print Assumptions le0'_float_exact.
 Print Assumptions run'_float_exact.
+Print Assumptions run'_float_exact_tick.
 Print Assumptions while'_float_exact.
 Print Assumptions run_float_exact_refuted_test.
 Print Assumptions due'_2560.
-(* Output of the eleven Print Assumptions above (Coq 8.16.1, Flocq 4.1.0):
+(* Output of the twelve Print Assumptions above (Coq 8.16.1, Flocq 4.1.0):
      tie_needs_512:  Closed under the global context
      all the others: exactly the four statements the standard library's classical real numbers rest on -
        ClassicalDedekindReals.sig_not_dec : forall P : Prop, {~ ~ P} + {~ P}
